@@ -381,6 +381,77 @@ theorem compileRows_noBind_missing (S : Sig) (hy : ∀ j, S.gen j ≠ "missing")
 theorem realGen_ne_missing (j : Nat) : realGen j ≠ "missing" :=
   realGen_ne j "missing" 'm' _ rfl (by decide)
 
+/-! ## the statement for the compiler's own names -/
+
+/-- source locals are spelled `hint/index` (hir), so they contain a `/` -/
+def srcName (y : String) : Prop := '/' ∈ y.toList
+
+/-- a name containing `/` is never generated: `x{n}` is `x` followed by decimal digits -/
+theorem realGen_ne_src (j : Nat) (y : String) (hy : srcName y) : realGen j ≠ y := by
+  intro h
+  have hs : (realGen j).toList = 'x' :: (Nat.repr j).toList := by
+    simp [realGen, String.toList_append, toString]
+  rw [h] at hs
+  unfold srcName at hy
+  rw [hs] at hy
+  rcases List.mem_cons.mp hy with h1 | h1
+  · exact absurd h1 (by decide)
+  · have := (String.isNat_iff.mp (Nat.isNat_repr j)).2.1 '/' h1
+    rcases this with h2 | h2
+    · exact absurd h2 (by decide)
+    · exact absurd h2 (by decide)
+
+/-- **C06 for a `match x { arms }` as the compiler sees it**: gensym `x{n}`, pattern variables
+    spelled `hint/index`, scrutinee variable `x` a source local or `mtmp{n}`.  Every hypothesis is
+    about the source program; the conclusion is first-match with the right bindings. -/
+theorem match_correct_real (enums : List EnumDef) (structs : List StructDef) (x : String)
+    (hx : srcName x ∨ ∃ c s, x.toList = c :: s ∧ c ≠ 'x') (arms : List (ArmIn β))
+    (hnames : ∀ a ∈ arms, ∀ y ∈ a.pat.names, srcName y ∧ y ≠ x)
+    (fuel : Nat) (ty : Ty) (n : Nat) (t : DT β) (n' : Nat)
+    (hc : compileRows ⟨enums, structs, realGen⟩ fuel ty n (makeRows x arms) = some (.ok (t, n')))
+    (ρ : Env) (hconf : ∀ a ∈ arms, conf ⟨enums, structs, realGen⟩ a.pat (lookupVar ρ x) = true) :
+    match firstMatch ρ (makeRows x arms) with
+    | none => t.eval ρ = .missing
+    | some (b, σ) => ∃ σ' τ, t.eval ρ = .body b (σ' ++ τ ++ ρ) ∧ (∀ p, p ∈ σ' ↔ p ∈ σ) ∧
+        (∀ p ∈ τ, ∃ j, n ≤ j ∧ j < n' ∧ p.1 = realGen j) := by
+  have hxg : ∀ j, realGen j ≠ x := by
+    intro j
+    rcases hx with h | ⟨c, s, h1, h2⟩
+    · exact realGen_ne_src j x h
+    · exact realGen_ne j x c s h1 h2
+  have hrows : ∀ r ∈ makeRows x arms, ∃ a ∈ arms, r = ⟨[(x, a.pat)], [], a.body, a.bodyTy⟩ := by
+    intro r hr
+    simp only [makeRows, List.mem_map] at hr
+    obtain ⟨a, ha, rfl⟩ := hr
+    exact ⟨a, ha, rfl⟩
+  apply compileRows_correct_input ⟨enums, structs, realGen⟩ realGen_injective
+    (fun y => y = x ∨ ∃ j, y = realGen j) (fun j => Or.inr ⟨j, rfl⟩) fuel ty n _ t n' hc ρ
+  · intro r hr
+    obtain ⟨a, ha, rfl⟩ := hrows r hr
+    refine ⟨?_, fun b hb => by cases hb⟩
+    intro c hc'
+    simp only [List.mem_singleton] at hc'
+    subst hc'
+    refine ⟨Or.inl rfl, ?_⟩
+    intro y hy hcv
+    obtain ⟨h1, h2⟩ := hnames a ha y hy
+    rcases hcv with h | ⟨j, h⟩
+    · exact h2 h
+    · exact realGen_ne_src j y h1 h.symm
+  · intro r hr
+    obtain ⟨a, ha, rfl⟩ := hrows r hr
+    refine ⟨?_, fun b hb => by cases hb⟩
+    intro c hc' j _
+    simp only [List.mem_singleton] at hc'
+    subst hc'
+    exact hxg j
+  · intro r hr
+    obtain ⟨a, ha, rfl⟩ := hrows r hr
+    intro c hc'
+    simp only [List.mem_singleton] at hc'
+    subst hc'
+    exact hconf a ha
+
 /-! ## non-vacuity: matrices of corpus programs 007 and 051 -/
 
 section Examples
@@ -444,6 +515,34 @@ example : ∃ t n', compileRows sig007 (measure rows007 + 1) .unit 0 rows007 = s
   obtain ⟨ρ₂, h1, h2, _⟩ := bindings_correct sig007 realGen_injective _ _ _ _ t n' hc hl ρ007 hfresh hconf 3 σ hfm
     (by rw [hσ]; decide)
   exact ⟨ρ₂, h1, h2 _ _ (by rw [hσ]; simp)⟩
+
+def arms007 : List (ArmIn Nat) :=
+  [addP zeroP zeroP, mulP zeroP (pv "x/1"), addP (succP (pv "x/2")) (pv "y/3"), mulP (pv "x/4") zeroP,
+   mulP (addP (pv "x/5") (pv "y/6")) (pv "z/7"), addP (pv "x/8") zeroP, pv "x/9"].zipIdx.map
+    (fun (p, i) => ⟨p, i, .unit⟩)
+
+def namesOK (x : String) (arms : List (ArmIn Nat)) : Bool :=
+  arms.all (fun a => a.pat.names.all (fun y => decide ('/' ∈ y.toList) && decide (y ≠ x)))
+
+/-- `match_correct_real` applies to 007 as the compiler sees it (names `a/0`, `x/1`, …): its
+    hypotheses are satisfiable, and it yields arm 3 for `Mul(Add(Zero,Zero),Zero)` -/
+example : ∃ t n', compileRows ⟨sig007.enums, [], realGen⟩ 30 .unit 0 (makeRows "a/0" arms007) = some (.ok (t, n')) ∧
+    ∃ ρ₂, t.eval ρ007 = .body 3 ρ₂ := by
+  obtain ⟨t, n', hc, _⟩ := okTree_elim
+    (show okTree (compileRows ⟨sig007.enums, [], realGen⟩ 30 .unit 0 (makeRows "a/0" arms007)) = true by decide +kernel)
+  refine ⟨t, n', hc, ?_⟩
+  have hn : namesOK "a/0" arms007 = true := by decide +kernel
+  have h := match_correct_real sig007.enums [] "a/0" (Or.inl (by unfold srcName; decide)) arms007
+    (by
+      intro a ha y hy
+      simp only [namesOK, List.all_eq_true, Bool.and_eq_true, decide_eq_true_eq] at hn
+      exact hn a ha y hy)
+    30 .unit 0 t n' hc ρ007 (by decide +kernel)
+  have hfm : ∃ σ, firstMatch ρ007 (makeRows "a/0" arms007) = some (3, σ) := ⟨_, rfl⟩
+  obtain ⟨σ, hfm⟩ := hfm
+  rw [hfm] at h
+  obtain ⟨σ', τ, e, _, _⟩ := h
+  exact ⟨_, e⟩
 
 /-- `051_int_pattern_matching::is_special8`: `5i8 => …, 7i8 => …, _ => …` -/
 def rows051 : List (Row Nat) :=
